@@ -344,16 +344,17 @@ def h_tworun() -> bool:
     lazy = locals().get("lazy_table")
     orig_streams = (sys.stdout, sys.stderr)
     saved_pels = srcmod.registry.pels
-    if case == "registry":
-        from harness.C03_src import FIXTURE_REGISTRY
-        srcmod.registry.pels = FIXTURE_REGISTRY
     try:
         # reference: x decoded first in a fresh process state
         fresh_state()
+        if case == "registry":
+            srcmod.registry.pels = _load_registry()
         with env(None if real_plugins else imp) as e, _lazy(lazy):
             d1 = dec(x)
         # history: y (possibly failing) decoded first, then x - and x once more
         fresh_state()
+        if case == "registry":
+            srcmod.registry.pels = _load_registry()
         with env(None if real_plugins else imp) as e, _lazy(lazy):
             if between is not None:
                 imp.behaviour = between
@@ -375,6 +376,17 @@ def h_tworun() -> bool:
         calls = [c for c in imp.calls if c.kind == "SRC"]
         conds.append(len(calls) >= 1)
     return verdict(sym_all(conds), obs={"first": d1, "third": d3, "second_kind": d2 if isinstance(d2, tuple) else "document"})
+
+
+def _load_registry():
+    """what a new process has: the message registry as the real Registry.loadJson() returns it for the fixture file"""
+    import io
+    import json as realjson
+    from pel.peltool import registry as regmod
+    from harness.C03_src import FIXTURE_REGISTRY
+    text = realjson.dumps({"PELs": FIXTURE_REGISTRY})
+    with patched(regmod, open=lambda p, *a, **k: io.StringIO(text)):
+        return srcmod.registry.loadJson("/fixture/message_registry.json")
 
 
 def h_step() -> bool:
